@@ -108,7 +108,7 @@ func (x *xmlParser) Pull() (node.Node, bool, error) {
 	x.attrPos = 0
 	x.namespaces = emptyXmlNamespaces
 	x.nsPos = 0
-	tok, err := x.xmlReader.Token()
+	tok, err := x.nextToken()
 
 	if err != nil {
 		return nil, false, err
@@ -139,6 +139,24 @@ func (x *xmlParser) Pull() (node.Node, bool, error) {
 
 	//case xml.EndElement:
 	return nil, true, nil
+}
+
+// Reads the next token of the document that belongs to the tree.
+func (x *xmlParser) nextToken() (xml.Token, error) {
+	for {
+		tok, err := x.xmlReader.Token()
+
+		if err != nil {
+			return nil, err
+		}
+
+		// The XML declaration is not a processing instruction.
+		if pi, ok := tok.(xml.ProcInst); ok && pi.Target == "xml" {
+			continue
+		}
+
+		return tok, nil
+	}
 }
 
 func createXmlNamespaces(attrs []xml.Attr) []XmlNamespace {
